@@ -25,12 +25,13 @@ BUDGET = {"quick": 900, "thorough": 3400}
 
 META = dict(
     rule="(A) prefix tree: each of the 11 test functions x 1-5 parameter sets x every series of length 0..N over "
-         "{0,1,3,NaN} as ndarray and over {0,1,3,NaN,None} as python list (positions: 7 lon/lat pairs incl. each "
+         "{0,1,3,NaN} as ndarray, as masked array (missing = masked with 999 underneath, length N-1) and over {0,1,3,NaN,None} as python list (positions: 7 lon/lat pairs incl. each "
          "coordinate NaN/None), aux inputs = regular 60 s axis, depth ramp and the data's missing pattern shifted by "
-         "one; each state executes the real function twice on the same argument objects and checks: no exception, one "
+         "one; each state executes the real function twice on the same argument objects with a call on another series of the same length in between and checks: no exception, one "
          "flag per element, input shape, every flag in {1,2,3,4,9}, no masked flag, argument objects byte-identical "
-         "afterwards, second call identical. (B) event graph: every history of depth<=d over a menu of 14 operations "
-         "(one per function/mode) that share the same ndarray inputs, ClimatologyConfig object and span lists; in "
+         "afterwards, second call identical, first returned array unchanged by later calls. (B) event graph: every history of depth<=d over a menu of 18 operations "
+         "(one per function/mode, four of them on a second input set of another length and time axis) that share the same ndarray inputs, "
+         "ClimatologyConfig objects and span lists; in "
          "every state the shared objects' fingerprint, the functions' defaults and the modules' globals equal the "
          "initial ones and each operation returns what it returns in the empty history. non-trivial = series contains "
          "a missing marker or has length<3 (A); history of depth>=2 (B)",
@@ -46,12 +47,14 @@ def tasks(tier):
         pos = spec["kind"] == "position"
         n = PNMAX[tier] if pos else NMAX[tier]
         for ci in range(len(spec["cfgs"])):
-            for how in ("nd", "list"):
+            for how in ("nd", "list", "ma", "ma2"):
+                if how in ("ma", "ma2") and not spec["none_ok"]:
+                    continue
                 if how == "list" and not spec["none_ok"]:
                     sig = "nd"
                 else:
-                    sig = how
-                ts.append(("A", name, ci, how, sig, n))
+                    sig = "nd" if how in ("ma", "ma2") else how
+                ts.append(("A", name, ci, how, sig, n - 1 if how in ("ma", "ma2") else n))
     ops = len(OPS)
     for first in range(ops):
         for second in range(-1, ops):
@@ -109,19 +112,33 @@ def check_case(case):
     for k in before:
         if before[k] != after[k]:
             vs.append(V(f"{PROP}|{site}|symptom=argument-modified:{k}", f"{site} modified the caller's {k}", None, None))
+    # an unrelated call of the same function on a different series of the same length in between
+    # (a result or scratch buffer cached by size / hoisted to module scope would leak into the repeat)
+    xalt = list(reversed(x))
+    if xalt == list(x) and n:
+        xalt = list(x[1:]) + [x[0]] if len(set(map(str, x))) > 1 else [(0 if G.SPECS[name]["kind"] == "position" else 3.0) if str(v) != "3.0" and v != 0 else (1 if G.SPECS[name]["kind"] == "position" else 0.0) for v in x]
+    alt = alpha.call(G.build, name, cfg, xalt, how, case.get("zmode", "ramp"))
+    if not isinstance(alt, alpha.Raised):
+        alpha.call(alt[0], **alt[1])
     out2 = alpha.call(fn, **kw)
     vals2, _, _ = alpha.flags_of(out2)
     if vals2 != vals:
-        vs.append(V(f"{PROP}|{site}|symptom=second-call-differs", f"{site} returned different flags when called again", vals, vals2 if vals2 is not None else repr(out2)))
-    return vs, nt, tuple(vals), 0, 2
+        vs.append(V(f"{PROP}|{site}|symptom=second-call-differs", f"{site} returned different flags when called again (after a call on another series of the same length)", vals, vals2 if vals2 is not None else repr(out2)))
+    vals1_again, _, _ = alpha.flags_of(out1)
+    if vals1_again != vals:
+        vs.append(V(f"{PROP}|{site}|symptom=returned-array-changed-later", f"the flag array {site} returned was modified by a later call", vals, vals1_again))
+    return vs, nt, tuple(vals), 0, 3
 
 
 # ------------------------------------------------------------------ (B) call histories
+# (function, cfg index, alt): alt=True runs the operation on the SECOND input set (other length, other time axis)
+# while still sharing the parameter objects (ClimatologyConfig, span lists, bbox) with the other operations
 OPS = [
-    ("gross_range_test", 1), ("valid_range_test", 0), ("climatology_test", 2), ("climatology_test", 4),
-    ("spike_test", 3), ("spike_test", 1), ("rate_of_change_test", 0), ("flat_line_test", 0),
-    ("attenuated_signal_test", 0), ("attenuated_signal_test", 3), ("density_inversion_test", 3),
-    ("location_test", 3), ("speed_test", 0), ("pressure_increasing_test", 0),
+    ("gross_range_test", 1, False), ("valid_range_test", 0, False), ("climatology_test", 2, False), ("climatology_test", 4, False),
+    ("spike_test", 3, False), ("spike_test", 1, False), ("rate_of_change_test", 0, False), ("flat_line_test", 0, False),
+    ("attenuated_signal_test", 0, False), ("attenuated_signal_test", 3, False), ("density_inversion_test", 3, False),
+    ("location_test", 3, False), ("speed_test", 0, False), ("pressure_increasing_test", 0, False),
+    ("climatology_test", 2, True), ("climatology_test", 4, True), ("gross_range_test", 1, True), ("rate_of_change_test", 0, True),
 ]
 HX = [0.0, 1.0, 3.0, alpha.NAN, 1.0, 1.0]
 HPOS = [0, 1, 2, 4, 1, 0]
@@ -138,6 +155,10 @@ class Shared:
         self.lon = alpha.nd([G.POSITIONS[i][0] for i in HPOS])
         self.lat = alpha.nd([G.POSITIONS[i][1] for i in HPOS])
         self.pressure = alpha.nd([0.0, 1.0, 1.0, 3.0, 2.0, 4.0])
+        # second input set: other length, other months / quarters, irregular steps
+        self.inp2 = alpha.nd([3.0, 1.0, alpha.NAN, 0.0])
+        self.tinp2 = alpha.dt64([alpha.T0 + 86400 * d for d in (150, 190, 191, 300)])
+        self.zinp2 = alpha.nd([50.0, 5.0, 5.0, alpha.NAN])
         self.span_a = [0, 3]
         self.span_b = [1, 2]
         self.bbox = [-10, -5, 10, 5]
@@ -147,13 +168,14 @@ class Shared:
 
     def objects(self):
         d = dict(inp=self.inp, tinp=self.tinp, zinp=self.zinp, lon=self.lon, lat=self.lat, pressure=self.pressure,
+                 inp2=self.inp2, tinp2=self.tinp2, zinp2=self.zinp2,
                  span_a=self.span_a, span_b=self.span_b, bbox=self.bbox)
         for k, v in self.clim.items():
             d[f"clim{k}"] = v
         return d
 
     def call(self, opi):
-        name, ci = OPS[opi]
+        name, ci, alt = OPS[opi]
         fn = G.func(name)
         kw = G.build_cfg(name, G.SPECS[name]["cfgs"][ci])
         spec = G.SPECS[name]
@@ -170,11 +192,11 @@ class Shared:
         elif name == "pressure_increasing_test":
             kw["inp"] = self.pressure
         else:
-            kw["inp"] = self.inp
+            kw["inp"] = self.inp2 if alt else self.inp
         if "t" in spec["needs"]:
-            kw["tinp"] = self.tinp
+            kw["tinp"] = self.tinp2 if alt else self.tinp
         if "z" in spec["needs"]:
-            kw["zinp"] = self.zinp
+            kw["zinp"] = self.zinp2 if alt else self.zinp
         out = alpha.call(fn, **kw)
         vals, _, _ = alpha.flags_of(out)
         return vals if vals is not None else repr(out)
